@@ -116,7 +116,7 @@ func parseGroupReplay(arg string) ([]spec, []gevent, error) {
 			i++
 		}
 		o := op{code: qa[1][:i]}
-		if !validCode(specs[qi].kind, o.code) {
+		if !validCode(specs[qi].kind, o.code) || isHeld(o.code) {
 			return nil, nil, fmt.Errorf("bad event %q", w)
 		}
 		if opHasArg(specs[qi].kind, o.code) {
